@@ -51,6 +51,14 @@ def _gen_graph(rng: random.Random) -> tuple[list[tuple[str, list[str], bool]], s
     """Returns [(ref, requisites, synthetic)], injected defect classes."""
     n = rng.randint(1, 9)
     refs = [f"s{i}" for i in range(n)]
+    if rng.random() < 0.25:
+        # unusual but legal reference strings: the empty string (the model's default), whitespace, unicode, a name
+        # that differs from another only by case
+        odd = ["", " ", "S0", "s\u00e9", "0", "s0 "]
+        for i in rng.sample(range(n), min(n, rng.randint(1, 2))):
+            cand = rng.choice(odd)
+            if cand not in refs:
+                refs[i] = cand
     g = []
     for i, r in enumerate(refs):
         req = sorted(rng.sample(refs[:i], min(rng.choice([0, 1, 1, 2, 3]), i)))
